@@ -608,6 +608,13 @@ pub fn run_program<F: Fam>(prog: &[String], out: &mut Out) -> bool {
                     {
                         let mut t = txn.open_table(def).expect("open_table");
                         while i < prog.len() && prog[i] != "commit" && prog[i] != "abort" {
+                            // now and then the handle is dropped and the table opened again inside
+                            // the transaction: nothing observable may depend on which handle is used
+                            if fnv64(&[prog[i].as_bytes(), &i.to_le_bytes(), b"handle"]) % 6 == 0 {
+                                drop(t);
+                                t = txn.open_table(def).expect("open_table again");
+                                out.count("handle_reopened_in_txn");
+                            }
                             let toks: Vec<&str> = prog[i].split(' ').collect();
                             out.count(&format!("op_{}", toks[0]));
                             let got = exec_op::<F>(&mut t, &toks);
